@@ -1,0 +1,17 @@
+//go:build !verif
+
+// Package verifhook provides instrumentation points for the /verif conformance harness.
+// Without the verif build tag every function is an empty, inlinable no-op.
+package verifhook
+
+// Enabled reports whether hooks are compiled in.
+const Enabled = false
+
+// Event records one trace event.
+func Event(name string, kv ...string) {}
+
+// Point marks a crash / delay point.
+func Point(name string) {}
+
+// Fault returns an injected error at a named fault point, if armed.
+func Fault(name string) error { return nil }
